@@ -159,16 +159,28 @@ def check(spec, cx, out):
     if t == "ascii":
         # ASCII characters are emitted as their byte; characters >= 0x80 have no ASCII byte and are
         # left out -- and the directive occupies exactly the bytes it emits (the `end` label follows them)
-        exp = []
-        for i in range(spec["n"]):
-            c = cx.t(f"c{i}")
-            d = cx.implied(z3.ULT(c, 0x80))
-            if d is None:
-                return [("ascii-structure-decided-by-path", z3.BoolVal(False))]
-            if d:
-                exp.append(z3.ZeroExt(56, c))
-        end = 0x8000 + len(exp)
-        res.append(("ascii-bytes", eq_bytes(data, exp + le_bytes(B(end), 3))))
+        from vf.oraclex import oracle_cases
+
+        def expect(decide):
+            exp = []
+            for i in range(spec["n"]):
+                c = cx.t(f"c{i}")
+                if decide(z3.ULT(c, 0x80)):
+                    exp.append(z3.ZeroExt(56, c))
+            return exp
+
+        conds = []
+        for assum, exp in oracle_cases(cx, expect):
+            pre = z3.And(*assum) if assum else z3.BoolVal(True)
+            if exp is None:
+                continue
+            end = 0x8000 + len(exp)
+            want = exp + le_bytes(B(end), 3)
+            if len(blist(data)) != len(want):
+                conds.append(z3.Not(pre))
+            else:
+                conds.append(z3.Implies(pre, eq_bytes(data, want)))
+        res.append(("ascii-bytes", z3.And(*conds) if conds else z3.BoolVal(True)))
         return res
     if t == "incbin":
         p, n = cx.t("p"), cx.t("n")
